@@ -10,8 +10,8 @@
 #include "simalloc.hpp"
 
 namespace sim {
-Stats g_stats;
-Ledger g_ledger;
+thread_local Stats g_stats;
+thread_local Ledger g_ledger;
 
 namespace hist {
 Plan generate(const std::string& mode, uint64_t seed, uint64_t run);
